@@ -4,6 +4,7 @@ import (
 	"crypto"
 	"fmt"
 	"io"
+	"os"
 	"strings"
 )
 
@@ -24,17 +25,17 @@ func NewMtreeFS(w io.Writer) (MtreeFS, error) {
 
 func (fs MtreeFS) CreateDir(n NodeDirectory) error {
 	attr := []string{mtreeFilename(n.Name), "type=dir"}
-	attr = append(attr, fmt.Sprintf("mode=%04o", n.Mode.Perm()))
+	attr = append(attr, fmt.Sprintf("mode=%04o", tarMode(n.Mode)))
 	attr = append(attr, fmt.Sprintf("uid=%d", n.UID))
 	attr = append(attr, fmt.Sprintf("gid=%d", n.GID))
-	attr = append(attr, fmt.Sprintf("time=%d.%9d", n.MTime.Unix(), n.MTime.Nanosecond()))
+	attr = append(attr, fmt.Sprintf("time=%d.%09d", n.MTime.Unix(), n.MTime.Nanosecond()))
 	fmt.Fprintln(fs.w, strings.Join(attr, " "))
 	return nil
 }
 
 func (fs MtreeFS) CreateFile(n NodeFile) error {
 	attr := []string{mtreeFilename(n.Name), "type=file"}
-	attr = append(attr, fmt.Sprintf("mode=%04o", n.Mode.Perm()))
+	attr = append(attr, fmt.Sprintf("mode=%04o", tarMode(n.Mode)))
 	attr = append(attr, fmt.Sprintf("uid=%d", n.UID))
 	attr = append(attr, fmt.Sprintf("gid=%d", n.GID))
 	attr = append(attr, fmt.Sprintf("size=%d", n.Size))
@@ -62,26 +63,26 @@ func (fs MtreeFS) CreateFile(n NodeFile) error {
 
 func (fs MtreeFS) CreateSymlink(n NodeSymlink) error {
 	attr := []string{mtreeFilename(n.Name), "type=link"}
-	attr = append(attr, fmt.Sprintf("mode=%04o", n.Mode.Perm()))
+	attr = append(attr, fmt.Sprintf("mode=%04o", tarMode(n.Mode)))
 	attr = append(attr, fmt.Sprintf("target=%s", mtreeFilename(n.Target)))
 	attr = append(attr, fmt.Sprintf("uid=%d", n.UID))
 	attr = append(attr, fmt.Sprintf("gid=%d", n.GID))
-	attr = append(attr, fmt.Sprintf("time=%d.%9d", n.MTime.Unix(), n.MTime.Nanosecond()))
+	attr = append(attr, fmt.Sprintf("time=%d.%09d", n.MTime.Unix(), n.MTime.Nanosecond()))
 	fmt.Fprintln(fs.w, strings.Join(attr, " "))
 	return nil
 }
 
 func (fs MtreeFS) CreateDevice(n NodeDevice) error {
 	attr := []string{mtreeFilename(n.Name)}
-	if n.Mode&modeChar != 0 {
+	if n.Mode&os.ModeCharDevice != 0 {
 		attr = append(attr, "type=char")
 	} else {
 		attr = append(attr, "type=block")
 	}
-	attr = append(attr, fmt.Sprintf("mode=%04o", n.Mode.Perm()))
+	attr = append(attr, fmt.Sprintf("mode=%04o", tarMode(n.Mode)))
 	attr = append(attr, fmt.Sprintf("uid=%d", n.UID))
 	attr = append(attr, fmt.Sprintf("gid=%d", n.GID))
-	attr = append(attr, fmt.Sprintf("time=%d.%9d", n.MTime.Unix(), n.MTime.Nanosecond()))
+	attr = append(attr, fmt.Sprintf("time=%d.%09d", n.MTime.Unix(), n.MTime.Nanosecond()))
 	fmt.Fprintln(fs.w, strings.Join(attr, " "))
 	return nil
 }
